@@ -175,6 +175,8 @@ m("c04-point-mass-jitter", ["C04"], "sempler/lganm.py", "        covariance = A 
 # ---- C17
 m("c17-dead-remainder-branch", ["C17"], U, "            if i < n_folds - 1:\n                fold_size = round(n * ratio)\n                fold_sample = sample[start:start + fold_size]\n                start += fold_size\n            else:\n                fold_sample = sample[start::]\n            folds[i].append(fold_sample)\n",
   "            if i < n_folds:\n                fold_size = round(n * ratio)\n                fold_sample = sample[start:start + fold_size]\n            else:\n                fold_sample = sample[start::]\n            folds[i].append(fold_sample)\n            start += fold_size\n", note="the pinned tree's behaviour")
+m("c17-rotation-instead-of-shuffle", ["C17"], U, "        rng.shuffle(sample)\n", "        sample = np.roll(sample, int(rng.integers(0, max(n, 1))), axis=0)\n", note="random in the seed, but neighbours stay together")
+m("c17-shuffle-twice-half", ["C17"], U, "        rng.shuffle(sample)\n", "        rng.shuffle(sample[: n // 2])\n        rng.shuffle(sample[n // 2:])\n", note="two half shuffles: an observation never leaves its half")
 m("c17-exact-sum-check", ["C17"], U, "    if not np.isclose(np.sum(ratios), 1, rtol=0, atol=1e-8):", "    if np.sum(ratios) != 1:", note="the pinned tree's behaviour")
 m("c17-int-truncation", ["C17"], U, "                fold_size = round(n * ratio)", "                fold_size = int(n * ratio)")
 m("c17-shuffle-concatenation", ["C17"], U, "    for sample in data:\n        n = len(sample)\n        sample = sample.copy()\n        rng.shuffle(sample)",
